@@ -15,7 +15,10 @@ Oracle (written from the statement, not from the state maps):
     in the number of requests (a reply-to-a-reply loop exceeds it);
   * after the drain both sides agree per option (A.us == B.him, A.him == B.us),
     no perspective is still negotiating, and what each application was told
-    through enable*/disable* matches its protocol's state.
+    through enable*/disable* matches its protocol's state;
+  * each direction's byte stream, read as RFC 854 defines it (IAC, verb, ONE
+    option byte of any value), consists of whole commands about the run's
+    options plus exactly the application bytes written.
 """
 from twisted.conch import telnet
 from twisted.python.failure import Failure
@@ -36,7 +39,8 @@ COMPONENTS = {"real": ["twisted.conch.telnet.Telnet.will/wont/do/dont", "twisted
                        "twisted.conch.telnet.Telnet.dataReceived", "twisted.internet.defer.Deferred"],
               "stub": ["TCP byte streams in both directions (detsim.net.Link): per-direction FIFO, tape-chosen direction and segment size",
                        "application policy enableLocal/enableRemote (accepts what the endpoint itself requests plus a tape-chosen subset)"]}
-RULE = ("run = up to 10 will/wont/do/dont requests by either side over 1-3 options, interleaved with tape-chosen network events "
+RULE = ("run = up to 10 will/wont/do/dont requests by either side over 1-3 options (ECHO/SGA/LINEMODE; in 40% of the runs some are replaced by option codes "
+        "from the rest of the byte range: 0, LF, CR, SE, NOP, GA, SB, WILL, WONT, DO, DONT=254, IAC=255, or any byte), interleaved with tape-chosen network events "
         "(move written bytes onto the wire / deliver 1..all bytes to one side) and occasional application bytes, a fifth of the requests followed by a re-entrant "
         "request about the same option issued from inside the first one's Deferred callback, then a drain; "
         "non-trivial = at least two requests went onto the wire AND negotiation bytes were in flight in both directions at the same time")
@@ -47,7 +51,16 @@ LEVEL_NOTE = ("seeded search over request/delivery interleavings (1-3 options, u
               "state-hashing enumeration the property's quantifier mentions; the joint abstract protocol states reached are reported as the states measure")
 
 OPTS = [b"\x01", b"\x03", b"\x22"]
+# An option code is ONE arbitrary byte (RFC 855): codes numerically equal to the bytes that mean something elsewhere in the
+# telnet stream are as legal as ECHO - NUL/TRANSMIT-BINARY 0, LF 10, CR 13, SE 240, NOP 241, GA 249, SB 250, WILL 251,
+# WONT 252, DO 253, DONT 254 and IAC 255 (EXOPL) - and "any" draws the code from the whole byte range.
+SPECIAL_OPTS = [b"\xff", b"\x00", b"\xfe", b"\x0d", b"\xfb", b"\xf0", b"\x0a", b"\xfa", b"\xfd", b"\xfc", b"\xf1", b"\xf9", "any"]
 ONAME = {b"\x01": "ECHO", b"\x03": "SGA", b"\x22": "LINEMODE"}
+VERBS = (telnet.WILL, telnet.WONT, telnet.DO, telnet.DONT)
+
+
+def oname(o):
+    return ONAME.get(o) or "opt%02x" % ord(o)
 KINDS = ["will", "do", "wont", "dont"]
 APP_ALPHABET = b"ab\n\x00z"
 EXPECTED_FAILURES = (telnet.OptionRefused, telnet.AlreadyEnabled, telnet.AlreadyDisabled, telnet.AlreadyNegotiating)
@@ -69,24 +82,24 @@ class Endpoint(telnet.Telnet):
 
     def enableLocal(self, option):
         ok = option in self.local_ok
-        self.sim.event(self.name, "enableLocal", ONAME.get(option, option), ok)
+        self.sim.event(self.name, "enableLocal", oname(option), ok)
         if ok:
             self.told_local[option] = True
         return ok
 
     def enableRemote(self, option):
         ok = option in self.remote_ok
-        self.sim.event(self.name, "enableRemote", ONAME.get(option, option), ok)
+        self.sim.event(self.name, "enableRemote", oname(option), ok)
         if ok:
             self.told_remote[option] = True
         return ok
 
     def disableLocal(self, option):
-        self.sim.event(self.name, "disableLocal", ONAME.get(option, option))
+        self.sim.event(self.name, "disableLocal", oname(option))
         self.told_local[option] = False
 
     def disableRemote(self, option):
-        self.sim.event(self.name, "disableRemote", ONAME.get(option, option))
+        self.sim.event(self.name, "disableRemote", oname(option))
         self.told_remote[option] = False
 
     def applicationDataReceived(self, data):
@@ -99,15 +112,33 @@ class Endpoint(telnet.Telnet):
         self.stray.append(("subneg", command, data))
 
 
+def _parse(wire):
+    """What one direction's byte stream is made of, read the way RFC 854 defines it: IAC, one verb byte, ONE option byte (whatever
+    its value) is a negotiation command; everything else is application data (which here never contains IAC).
+    Returns (commands, data, leftover) - leftover is an incomplete command at the end of the stream."""
+    cmds, data = [], bytearray()
+    i, n = 0, len(wire)
+    while i < n:
+        if wire[i] == 0xFF:
+            if i + 3 > n:
+                return cmds, bytes(data), bytes(wire[i:])
+            cmds.append((wire[i + 1:i + 2], wire[i + 2:i + 3]))
+            i += 3
+        else:
+            data.append(wire[i])
+            i += 1
+    return cmds, bytes(data), b""
+
+
 def _ncommands(t):
-    # application bytes never contain IAC, so every 0xFF on the wire starts one negotiation command
-    return bytes(t.written).count(b"\xff")
+    cmds, _data, leftover = _parse(bytes(t.written))
+    return len(cmds) + (1 if leftover else 0)
 
 
-def _abstract(ends):
+def _abstract(ends, opts=OPTS):
     out = []
     for e in ends:
-        for o in OPTS:
+        for o in opts:
             s = e.options.get(o)
             if s is None:
                 out.append("--")
@@ -119,6 +150,18 @@ def _abstract(ends):
 def run(sim):
     nopts = sim.draw_int(1, 3, "nopts")
     opts = OPTS[:nopts]
+    if sim.draw_bool(0.4, "special_option_codes"):
+        # replace some of the options by codes from the rest of the byte range
+        for i in range(nopts):
+            if sim.draw_bool(0.6, "special_code"):
+                o = sim.draw_choice(SPECIAL_OPTS, "code")
+                if o == "any":
+                    o = bytes([sim.draw_int(0, 255, "code_byte")])
+                if o not in opts:
+                    opts[i] = o
+                    sim.probe("option_code_special")
+                    if o in (b"\xff", b"\x00", b"\xfe"):
+                        sim.probe("option_code_%02x" % ord(o))
     nreq = sim.draw_int(1, 10, "nreq")
     ends = []
     cfg = {}
@@ -130,12 +173,12 @@ def run(sim):
                 local_ok.add(o)
             if not sim.draw_bool(0.3, "refuse_remote"):
                 remote_ok.add(o)
-        cfg[name] = {"local_ok": sorted(ONAME[o] for o in local_ok), "remote_ok": sorted(ONAME[o] for o in remote_ok)}
+        cfg[name] = {"local_ok": sorted(oname(o) for o in local_ok), "remote_ok": sorted(oname(o) for o in remote_ok)}
         ends.append(Endpoint(sim, name, local_ok, remote_ok))
     a, b = ends
     app_p = sim.draw_choice([0, 0, 1, 3], "appdata_weight")
     eager = sim.draw_choice([2, 1, 6], "request_weight")
-    sim.config = {"nopts": nopts, "nreq": nreq, "policy": cfg, "appdata_weight": app_p, "request_weight": eager}
+    sim.config = {"nopts": nopts, "opts": [oname(o) for o in opts], "nreq": nreq, "policy": cfg, "appdata_weight": app_p, "request_weight": eager}
     link = net.Link(sim, a, b)
     link.connect()
     trans = {"A": link.a, "B": link.b}
@@ -153,7 +196,7 @@ def run(sim):
     def check_fires():
         for i, r in enumerate(requests):
             sim.check("fires-at-most-once", len(r["results"]) <= 1, r["kind"],
-                      lambda: "request #%d %s.%s(%s) fired %d times: %r" % (i, r["side"], r["kind"], ONAME[r["opt"]], len(r["results"]), r["results"]))
+                      lambda: "request #%d %s.%s(%s) fired %d times: %r" % (i, r["side"], r["kind"], oname(r["opt"]), len(r["results"]), r["results"]))
 
     def check_bound():
         n = _ncommands(link.a) + _ncommands(link.b)
@@ -204,7 +247,7 @@ def run(sim):
             else:
                 what = repr(res)
             r["results"].append(what)
-            sim.event("fired", idx, r["side"], r["kind"], ONAME[r["opt"]], what)
+            sim.event("fired", idx, r["side"], r["kind"], oname(r["opt"]), what)
             if isinstance(res, Failure):
                 sim.check("outcome-kind", res.check(*EXPECTED_FAILURES) is not None, r["kind"],
                           "request #%d %s.%s failed with %s: %s" % (idx, r["side"], r["kind"], res.type.__name__, res.getErrorMessage()))
@@ -218,14 +261,14 @@ def run(sim):
 
         d.addBoth(fired)
         r["wire"] = went
-        sim.event("request", idx, e.name, k, ONAME[o], "wire" if went else "immediate:" + ",".join(r["results"]))
+        sim.event("request", idx, e.name, k, oname(o), "wire" if went else "immediate:" + ",".join(r["results"]))
         if went:
             flags["sent"] += went
         else:
             sim.probe("immediate_" + (r["results"][0] if r["results"] else "none"))
             # a request that put nothing on the wire has nothing to wait for
             sim.check("immediate-or-wire", len(r["results"]) == 1, k,
-                      "request #%d %s.%s(%s) sent nothing and did not fire" % (idx, e.name, k, ONAME[o]))
+                      "request #%d %s.%s(%s) sent nothing and did not fire" % (idx, e.name, k, oname(o)))
 
     def do_net():
         with sim.guard("handler-raised"):
@@ -263,7 +306,7 @@ def run(sim):
             do_app()
         check_fires()
         check_bound()
-        sim.state("|".join(_abstract(ends)) + "|%d%d" % (min(len(link.flight["A"]) + len(link.b.out), 7), min(len(link.flight["B"]) + len(link.a.out), 7)))
+        sim.state("|".join(_abstract(ends, opts)) + "|%d%d" % (min(len(link.flight["A"]) + len(link.b.out), 7), min(len(link.flight["B"]) + len(link.a.out), 7)))
         if issued >= nreq and sim.draw_bool(0.25, "stop_interleaving"):
             break
 
@@ -276,13 +319,13 @@ def run(sim):
         do_net()
         check_fires()
         check_bound()
-    sim.event("drained", *_abstract(ends))
+    sim.event("drained", *_abstract(ends, opts))
 
     # every Deferred fired exactly once
     for i, r in enumerate(requests):
         sim.check("fires-exactly-once", len(r["results"]) == 1, r["kind"],
                   lambda: "request #%d %s.%s(%s) has %d results after all messages were delivered; states %r"
-                  % (i, r["side"], r["kind"], ONAME[r["opt"]], len(r["results"]), _abstract(ends)))
+                  % (i, r["side"], r["kind"], oname(r["opt"]), len(r["results"]), _abstract(ends, opts)))
     # agreement per option
     for o in opts:
         sa, sb = a.options.get(o), b.options.get(o)
@@ -291,21 +334,28 @@ def run(sim):
         b_us = sb.us.state if sb else "no"
         b_him = sb.him.state if sb else "no"
         sim.check("agreement", a_us == b_him, "A.us!=B.him",
-                  lambda: "option %s: A.us=%s B.him=%s (A %r, B %r)" % (ONAME[o], a_us, b_him, sa, sb))
+                  lambda: "option %s: A.us=%s B.him=%s (A %r, B %r)" % (oname(o), a_us, b_him, sa, sb))
         sim.check("agreement", a_him == b_us, "A.him!=B.us",
-                  lambda: "option %s: A.him=%s B.us=%s (A %r, B %r)" % (ONAME[o], a_him, b_us, sa, sb))
+                  lambda: "option %s: A.him=%s B.us=%s (A %r, B %r)" % (oname(o), a_him, b_us, sa, sb))
         for e, s in ((a, sa), (b, sb)):
             if s is None:
                 continue
             sim.check("negotiating-left", not s.us.negotiating and not s.him.negotiating, "flag",
-                      lambda: "%s option %s still negotiating after drain: %r" % (e.name, ONAME[o], s))
+                      lambda: "%s option %s still negotiating after drain: %r" % (e.name, oname(o), s))
             sim.check("negotiating-left", s.us.onResult is None and s.him.onResult is None, "onResult",
-                      lambda: "%s option %s keeps a result Deferred after drain: %r" % (e.name, ONAME[o], s))
+                      lambda: "%s option %s keeps a result Deferred after drain: %r" % (e.name, oname(o), s))
             # what the application was told matches the protocol's state
             sim.check("app-view", bool(e.told_local.get(o)) == (s.us.state == "yes"), "local",
-                      lambda: "%s option %s: application told local=%r but us=%s" % (e.name, ONAME[o], e.told_local.get(o), s.us.state))
+                      lambda: "%s option %s: application told local=%r but us=%s" % (e.name, oname(o), e.told_local.get(o), s.us.state))
             sim.check("app-view", bool(e.told_remote.get(o)) == (s.him.state == "yes"), "remote",
-                      lambda: "%s option %s: application told remote=%r but him=%s" % (e.name, ONAME[o], e.told_remote.get(o), s.him.state))
+                      lambda: "%s option %s: application told remote=%r but him=%s" % (e.name, oname(o), e.told_remote.get(o), s.him.state))
+    # the messages exchanged: each direction's stream is application bytes plus whole commands IAC <verb> <one option byte> about the run's options
+    for e in ends:
+        cmds, data, leftover = _parse(bytes(trans[e.name].written))
+        bad = [c for c in cmds if c[0] not in VERBS or c[1] not in opts]
+        sim.check("wire-form", not leftover and not bad and data == bytes(app_sent[e.name]), e.name,
+                  lambda: "%s wrote %r: commands that are not <verb> <option of this run> %r, incomplete tail %r, data bytes %r (application wrote %r)"
+                  % (e.name, bytes(trans[e.name].written), bad[:3], leftover, data, bytes(app_sent[e.name])))
     # negotiation never disturbs the data stream
     for e in ends:
         sim.check("no-stray-command", not e.stray, e.name, "unhandled command/subnegotiation %r" % (e.stray[:3],))
@@ -327,5 +377,8 @@ MUTANTS = [
     "telnet.py do_no_true: drop `state.us.negotiating = False` -> caught (negotiating-left:flag; handler-raised:AttributeError)",
     "telnet.py dont_no_false -> `self._wont(option)` and wont_no_false -> `self._dont(option)` (2-point loop) -> SURVIVES: equivalent under this property, "
     "those handlers are unreachable between two compliant endpoints over FIFO links (no run ever delivers DONT/WONT to a (no, not negotiating) perspective)",
+    "telnet.py _do/_dont/_will/_wont: option byte written with IAC doubled (`option.replace(IAC, IAC * 2)`) -> caught once option code 255 is in the option set "
+    "(fires-exactly-once:will/do; handler-raised:ValueError Stumped; immediate-or-wire; wire-form)",
+    "telnet.py dataReceived state 'command': an option byte equal to IAC re-enters 'escaped' instead of completing the command -> caught (fires-exactly-once; option code 255)",
     "telnet.py do_yes_false -> `self._will(option)` -> SURVIVES: equivalent for the same reason (DO never reaches a (yes, not negotiating) perspective)",
 ]
